@@ -244,6 +244,9 @@ func knownFinding(path, id, key string) (string, bool) {
 
 func crashReplay(verif, id, seed, tier, key, caselog, stderrTail string) string {
 	dir := filepath.Join(verif, "replays", id)
+	if os.Getenv("VERIF_REPO") != "" {
+		dir = filepath.Join(verif, "replays", "alt", id)
+	}
 	os.MkdirAll(dir, 0755)
 	lines := strings.Split(strings.TrimSpace(tailFile(caselog, 8000)), "\n")
 	if len(lines) > 40 {
